@@ -226,7 +226,7 @@ func checkC08(a *checkArgs, r *Result) error {
 	defer dp.Close()
 	r.Rule = "generated call histories over {Write(p), Flush, Close} incl. calls after Close, redundant Flush, empty writes, alternating compressible/incompressible payloads, flushes around the 64 KiB / 2 MiB chunk limits x Writer2Config (all lc+lp<=4, 4096-byte dictionary, 273-byte look-ahead, both matchers); after every Flush the sink prefix (+end marker) and after Close the whole sink are decoded by the real Reader2 and by the Lean reference decoder; the Lean model re-encodes the parsed chunks (bytes identical). Non-trivial: >= 1 Flush with pending data and >= 2 chunks; distinct by (history, config)."
 	rng := rand.New(rand.NewSource(a.seed))
-	n, nbig := 400, 10
+	n, nbig := 1500, 24
 	if a.tier == "thorough" {
 		n, nbig = 5000, 120
 	}
